@@ -31,9 +31,55 @@ def gen_case(rng, tier):
     return {'cfg': cfg, 'files': [stmts], 'start': start, 'end': end, 'fill': fill, 'seed': rng.randrange(1 << 30)}
 
 
+def aim_windows(rng, cases):
+    """second generation phase: lay every program out with the model (no window) and aim 60 % of the windows at the
+    actual lines: strictly inside one multi-byte line (both edges cut the same line), one edge inside a line, exactly a
+    line, from inside one line to inside a later one, around muted lines and holes"""
+    import leanio
+    try:
+        res = leanio.run_driver([P.to_model_request(c['cfg'], c['files'], 0, None, 0) for c in cases])
+    except Exception:
+        return
+    for c, r in zip(cases, res):
+        if not r.get('lines') or rng.random() < 0.4:
+            continue
+        ls = [l for l in r['lines'] if l['isByte'] and l['bytes'] and l['addr'] >= 0]
+        if not ls:
+            continue
+        long_ = [l for l in ls if len(l['bytes']) >= 3 and not l['muted']]
+        mode = rng.choice(['inside', 'inside', 'inside', 'start-cut', 'end-cut', 'exact', 'span', 'muted'])
+        l = rng.choice(long_ or ls)
+        a, n = l['addr'], len(l['bytes'])
+        if mode == 'inside' and n >= 3:
+            s = rng.randint(a + 1, a + n - 2)
+            e = rng.randint(s, a + n - 2)
+        elif mode == 'start-cut':
+            s = rng.randint(a + (1 if n > 1 else 0), a + n - 1)
+            e = rng.choice([None, s + rng.randint(0, 30)])
+        elif mode == 'end-cut':
+            e = rng.randint(a, max(a, a + n - 2))
+            s = max(0, a - rng.randint(0, 10))
+        elif mode == 'exact':
+            s, e = a, a + n - 1
+        elif mode == 'span':
+            l2 = rng.choice(ls)
+            lo, hi = sorted([(a, n), (l2['addr'], len(l2['bytes']))])
+            s = rng.randint(lo[0], lo[0] + lo[1] - 1)
+            e = rng.randint(max(s, hi[0]), max(s, hi[0] + hi[1] - 1))
+        else:
+            m = [x for x in ls if x['muted']] or ls
+            x = rng.choice(m)
+            s = max(0, x['addr'] - rng.randint(0, 3))
+            e = x['addr'] + len(x['bytes']) - 1 + rng.randint(0, 3)
+        c['start'], c['end'] = s, e
+        c['aimed'] = mode
+
+
 def generate(rng, tier):
     n = 500 if tier == 'quick' else 12000
-    return [gen_case(rng, tier) for _ in range(n)]
+    cases = [gen_case(rng, tier) for _ in range(n)]
+    aim_windows(rng, cases)
+    return cases
 
 
 def render(case):
@@ -70,6 +116,11 @@ def judge(case, ir, mr):
               for l in lines if not l['muted'])
     hole = len(set(spec)) > 1 and (case['fill'] & 0xFF) in spec
     special = any(l['muted'] for l in lines) or bool(case['cfg'].get('preData'))
+    both = any(l['addr'] < s and e is not None and e < l['addr'] + len(l['bytes']) - 1 for l in lines if not l['muted'])
+    if both:
+        tags.append('window-strictly-inside-one-line')
+    if case.get('aimed'):
+        tags.append('aimed:' + case['aimed'])
     if cut:
         tags.append('window-cuts-line')
     if any(l['muted'] for l in lines):
